@@ -182,8 +182,15 @@ def check_query(rec, fs, reg, layout, files, q, excl_names, excl_periods, case, 
     sub = dict(case, queries=[q])
     rec.ev()
     rec.count(tag + ".calls")
+    # the caller owns one filter dictionary per query and passes that object to every search made with
+    # it (all layouts, repetitions); the oracle reads the harness' own q["filters"]
+    if q["filters"] is not None and "_caller_filters" not in q:
+        import copy
+        q["_caller_filters"] = copy.deepcopy(q["filters"])
+    if q["filters"] is not None:
+        rec.count("find.shared_filter_dict_calls")
     kw = dict(sort=q["sort"], only_path=q["only_path"], bundle=q["bundle"],
-              filters=q["filters"], no_files_error=q["no_files_error"])
+              filters=q.get("_caller_filters"), no_files_error=q["no_files_error"])
     try:
         res = list(fs.find(start, end, **kw))
     except Exception as exc:
